@@ -542,6 +542,10 @@ class Emitter:
         return "%s[%s]" % (self.paren(self.E(a)), self.E(b))
 
     def e_InitListExpr(self, n):
+        tq = n.get("type") or {}
+        if (tq.get("desugaredQualType") or tq.get("qualType") or "").rstrip().endswith("]"):
+            # initializer of a C array member (e.g. the `{{a, b, c}}` of a std::array): nested brace list
+            return "{%s}" % ", ".join(self.E(c) for c in n.get("inner", []))
         ct = self.ctype(n)
         items = [self.E(c) for c in n.get("inner", [])]
         if ct.startswith("struct vf_pair_") or ct.startswith("struct "):
